@@ -338,6 +338,24 @@ U60 = [b'function _update60()\n x=1\nend\n', b'-- _update60', b'_update60=1', b'
        b'function _update60() end\nfunction _draw() cls() end\n' + b'x=x+1 y=y+1 z=z+1\n' * 20]
 
 
+def u60x_codes():
+    """Compressed sources that mention _update60 (the writer then compresses source + compatibility suffix while the
+    header declares the source length only): every string of <= 3 pieces over {_update60, LF, 'if(', x, blank} after a
+    compressible pad - the last block of the stream may start in the source and run on into the suffix - and programs
+    that hold the suffix text themselves."""
+    from props import c05
+    out = []
+    for idx in range(c05.count_strings(3, len(c05.MACRO))):
+        t = c05.nth_string(idx, c05.MACRO)
+        if b'_update60' in t:
+            out.append(c05.PAD + t)
+    shim = b'if(_update60)_update=function()_update60()_update60()end'
+    for tail in (b't=0\n', b't=0', b'\n', b'', b'if (t) t=0\n'):
+        out.append(b'function _update60()\n t+=1\nend\nt=0\n' + shim + b'\n' + tail)
+        out.append(b'function _update60() end\nif x then y=1 end\nt=0\n' + tail)
+    return out
+
+
 def shards(tier, seed):
     n = BOUNDS[tier]['region_carts']
     items = [('regions', tier, lo, min(n, lo + 4)) for lo in range(0, n, 4)]
@@ -345,7 +363,7 @@ def shards(tier, seed):
     sc = small_codes()
     items += [('small', lo, min(len(sc), lo + 6)) for lo in range(0, len(sc), 6)]
     items += [('cap', tier, c) for c in capacity_cases(tier)]
-    items += [('u60',), ('endings',), ('chain', tier), ('history',)]
+    items += [('u60',), ('endings',), ('chain', tier), ('history',)] + [('u60x', k, 8) for k in range(8)]
     items += [('long', n) for n in LONG[tier]]
     items += [('programs', tier, k) for k in range(8)]
     items.sort(key=lambda it: 0 if it[0] in ('cap', 'long') else 1)
@@ -411,6 +429,12 @@ def run_shard(item):
             for dest in (None, 1):
                 write_and_check(carts.region_fills(0, 0), 33, code, dest, res, ('u60', i))
         res.sample({'family': '_update60', 'code': U60[0]})
+    elif kind == 'u60x':
+        codes = u60x_codes()
+        for i, code in enumerate(codes):
+            if i % item[2] == item[1]:
+                write_and_check({}, 33, code, None if i % 2 else 1, res, ('u60x', i))
+        res.sample({'family': 'u60x', 'code': codes[3]})
     elif kind == 'endings':
         for i, code in enumerate([b'x=1 x=1 x=1 x=1 x=1 x=1\r\ny=2 y=2 y=2 y=2 y=2\r\n', b'x=1\r\n', b'x=1\n\n\n',
                                   b'x=1 x=1 x=1 x=1 x=1 x=1 x=1 x=1\n\n', b'\n', b'x=1\rx=2 x=2 x=2 x=2 x=2 x=2']):
@@ -458,6 +482,8 @@ def replay(case):
         res.merge(run_shard(('cap', 'thorough', tag)))
     elif kind == 'long':
         res.merge(run_shard(('long', tag[1])))
+    elif kind == 'u60x':
+        write_and_check({}, 33, u60x_codes()[tag[1]], None if tag[1] % 2 else 1, res, tag)
     elif kind == 'u60':
         for dest in (None, 1):
             write_and_check(carts.region_fills(0, 0), 33, U60[tag[1]], dest, res, tag)
